@@ -3,8 +3,11 @@ import SciVerif.Generated.Skel
 import SciVerif.Generated.Consts
 import SciVerif.Tie.Task
 import SciVerif.Props.C10
+import SciVerif.Tie.Pins
 /-! Tie A obligations for C10 on the current source. -/
 namespace SciVerif.Tie
+-- functions the model relies on without an obligation of its own naming them (pinned by bin/mkpins):
+-- PIN-ALSO: Scipipe.FileIP_AuditInfo Scipipe.FileIP_SetAuditInfo Scipipe.UnmarshalAuditInfoJSONFile
 open SciVerif.Generated
 
 /-- `writeAuditLogs` fills every field of the record, keys Upstream by input path (sub-stream
@@ -77,7 +80,28 @@ theorem generated_tags_copied :
      Scipipe.FileIP_AddTag.any (fun a => a.kind == .assign_ && a.name == "ai.Tags[k]" && a.args == ["v"]) &&
      Scipipe.FileIP_AddTag.any (fun a => a.kind == .assign_ && a.name == "ai" && a.args == ["ip.AuditInfo()"])) = true := by decide
 
+
+-- BEGIN PINS (written by bin/mkpins; do not edit by hand)
+/-- the Go functions this property's model and obligations were written against have exactly the
+pinned skeletons (SHA-256 prefix of the atom list) -/
+theorem pinned_skeletons_c10 :
+    pinsOk
+    [("Components.MapToTags_Run", "639dd3a11150ec10"),
+     ("Scipipe.FileIP_AddTag", "f8c4aaf3b95c7e7d"),
+     ("Scipipe.FileIP_AddTags", "7f98650d842d4c76"),
+     ("Scipipe.FileIP_AuditFilePath", "23da9f52635ce6f9"),
+     ("Scipipe.FileIP_AuditInfo", "5adb309a1fd92bb2"),
+     ("Scipipe.FileIP_SetAuditInfo", "9888139e5f6ebe46"),
+     ("Scipipe.FileIP_WriteAuditLogToFile", "4600f6f7f2efa41b"),
+     ("Scipipe.NewTask", "95298f03c320cb96"),
+     ("Scipipe.Task_Execute", "40fd1fec0c69deb2"),
+     ("Scipipe.Task_executeCommand", "98e77d849c0638cb"),
+     ("Scipipe.Task_writeAuditLogs", "5ee6e36ed2566be6"),
+     ("Scipipe.UnmarshalAuditInfoJSONFile", "d5d56678b2f7b950")] = true := by decide
+-- END PINS
+
 end SciVerif.Tie
+#print axioms SciVerif.Tie.pinned_skeletons_c10
 #print axioms SciVerif.Tie.generated_tags_copied
 #print axioms SciVerif.Tie.generated_record_complete_before_written
 #print axioms SciVerif.Tie.generated_audit_record_shape
